@@ -743,11 +743,16 @@ class TimeoutHandler(PoolThread):
                 dirty = set(k for k in dirty if k in cache)
 
             for i, job in cache.items():
-                ack_time = job._time_accepted
-                soft_timeout = job._soft_timeout
+                ack_time = getattr(job, '_time_accepted', None)
+                if isinstance(ack_time, list):
+                    # map results are accepted chunk by chunk and imap
+                    # iterators keep no accept time: time limits only
+                    # apply to single tasks.
+                    continue
+                soft_timeout = getattr(job, '_soft_timeout', None)
                 if soft_timeout is None:
                     soft_timeout = t_soft
-                hard_timeout = job._timeout
+                hard_timeout = getattr(job, '_timeout', None)
                 if hard_timeout is None:
                     hard_timeout = t_hard
                 if _timed_out(ack_time, hard_timeout):
